@@ -23,6 +23,7 @@ type Ctx struct {
 	global *sym.Mem
 	decCache map[bool][]*opSummary
 	eff      *effects.Analysis
+	initPkgs map[*ssa.Package]bool
 }
 
 // RuleFunc implements one or more rules of a property.
@@ -63,8 +64,10 @@ func (c *Ctx) Interp() *sym.Interp {
 		}
 		in.FreezeGlobals()
 		c.global = in.Global
+		c.initPkgs = in.InitPkgs
 	} else {
 		in.Global = c.global
+		in.InitPkgs = c.initPkgs
 	}
 	return in
 }
